@@ -1,6 +1,6 @@
 CONSTANTS
   Images = {"i1","i2","i3"}
-  Names = {"a","b","c"}
+  Names = {"a","b","endorsement"}
   Design = "no_remove_digest"
 SPECIFICATION Spec
 VIEW view
